@@ -76,6 +76,11 @@ NeverEarly(i, t)    == t >= due[i]
 AtMostOnce(i)       == i \notin started
 CancelEffective(i)  == i \notin intime
 NotTooLate(i, t)    == cfg.late => t - ref[i] <= cfg.L
+\* ORDER (single-worker executions in which every Cancel returned before anything was due; cfg.gap > 0 switches it on):
+\* when i is started (so it is due), no live future whose time lies more than cfg.gap BEFORE i's is still waiting - a
+\* queue that loses its order shows here whatever the load of the host, since one worker takes futures in queue order
+InOrder(i)          == cfg.gap > 0 =>
+                         \A j \in (DOMAIN due) \ (started \cup cancelled) : j # i => ~(ref[j] + cfg.gap <= due[i])
 
 Start(i, t) ==
     /\ i \in Called
@@ -83,6 +88,7 @@ Start(i, t) ==
     /\ AtMostOnce(i)
     /\ CancelEffective(i)
     /\ NotTooLate(i, t)
+    /\ InOrder(i)
     /\ started' = started \cup {i}
     /\ UNCHANGED <<due, ref, cancelled, intime, cfg>>
 
@@ -113,7 +119,7 @@ Sample(w) ==
 
 \* ---- the contract as a state machine (used as the refinement target of TimerImpl) ----------------
 Init == /\ due = <<>> /\ ref = <<>> /\ started = {} /\ cancelled = {} /\ intime = {}
-        /\ cfg \in [late : BOOLEAN, L : Int, Q : Int, idle : Int, slack : Int, maxw : Int]
+        /\ cfg \in [late : BOOLEAN, L : Int, Q : Int, idle : Int, slack : Int, maxw : Int, gap : Int]
 
 NextAt(t) == \E i \in Ids :
                 \/ \E d \in DelaySet : Call(i, t, t, d)
